@@ -1,6 +1,7 @@
 package props
 
 import (
+	"fmt"
 	nurl "net/url"
 	"strings"
 	"testing"
@@ -38,6 +39,12 @@ func checkC16(c *Case) (*Violation, caseInfo) {
 	doc, out := applyHTML(c.HTML, c.Opts)
 	if out.Panicked || out.Err != nil || out.Res == nil {
 		info.Skip = "apply-failed"
+		if out.Panicked {
+			info.Skip = "apply-panicked" // C01's business
+			info.Skip = "apply-panicked:" + firstRepoFrame(out.Stack) + ":" + truncate(fmt.Sprint(out.PanicVal), 80)
+		} else if out.Err != nil {
+			info.Skip = "apply-error:" + truncate(out.Err.Error(), 60)
+		}
 		return nil, info
 	}
 	algo := []string{"PrevNext", "PageNumber"}[c.Opts.Algo&1]
